@@ -1,6 +1,6 @@
 SPECIFICATION Spec
 CONSTANTS Coef <- C3
- Pairs <- P4
+ Pairs <- P6
  SumPairs <- SP3
  Bnd <- B2
  MaxD = 3
